@@ -26,23 +26,36 @@
     hypotheses: the two named-schema tables are what `parse_schema` builds (`EnvWF`: entries are
     definitions registered under their own full names, no built-in type name is a key) and the schemas
     are closed in them (`MClosed`);
-  NOT YET PROVED (full statement kept visible as `C08_full`): the composition of those steps
-  through arrays, maps, records, unions and named types at any depth (`readR = Spec.resolveRead`
-  on closed, plain schemas).  That clause is covered by the correspondence/oracle runs only
-  (harness/props/c08.py compares implementation, model and specification reader on evolved schemas).
+  PROVED (the composition, for every pair of schemas, every byte string, any nesting depth):
+    * `c08_resolve_eq_spec` — every definite result of `read_data` with a reader schema (model
+                              Resolve.readR: value + rest, schema-resolution error, decoding error) is the
+                              specification reader's result (Spec.resolveRead), through arrays, maps,
+                              records (field matching, skipping, defaults), unions on either side and
+                              named types inline or by reference.  "Definite" = not the model's own
+                              nesting-fuel exhaustion (the fuel bounds the nesting depth only; the
+                              driver runs with 400).
+    hypotheses of the composition (`ResolveFull.Good`, checked on every harness case by the driver's
+    `c08.hyp` operation, see evidence): the tables are `parse_schema`'s (`EnvWF`); every name is defined;
+    the writer schema carries no logical type (logical types are C05's subject); reader definitions are
+    the reader table's entries; a reader record's fields are told apart by name and by alias; a union is
+    not an immediate member of a union (the specification forbids it).
 -/
-import Proofs.Resolve
+import Proofs.ResolveFull
+
 import Proofs.ResolveMatch
 
 open Binary Resolve ResolveProofs
 
-/-- the full statement (not proved yet): on closed plain schemas the model's resolving reader is the
-    specification's, result for result (fuel exhaustion aside) -/
-def C08_full : Prop :=
-  ∀ (fuel : Nat) (wenv renv : Env) (ro : ROpts) (w r : Schema) (bs : Bytes) (res : R (Val × Bytes)),
-    NoPrimKeys wenv → NoPrimKeys renv →
-    readR fuel wenv renv ro w r bs = res → res ≠ .error .fuel →
-    ∃ fuel', Spec.resolveRead fuel' wenv renv w r bs = res
+open ResolveMatch ResolveFull in
+/-- on well-formed schemas the model's resolving reader is the specification's, result for result
+    (the model's own fuel exhaustion aside) -/
+theorem c08_resolve_eq_spec (fuel : Nat) (wenv renv : Env) (ro : ROpts) (w r : Schema) (bs : Bytes) (res : R (Val × Bytes))
+    (hwf : EnvWF wenv) (hrf : EnvWF renv) (hgw : EnvGood wenv false) (hgr : EnvGood renv true)
+    (hw : Good wenv false w) (hr : Good renv true r)
+    (h : readR fuel wenv renv ro w r bs = res) (hd : res ≠ .error .fuel) :
+    ∃ fuel', Spec.resolveRead fuel' wenv renv w r bs = res := by
+  subst h
+  exact ⟨2 * fuel, readR_eq_spec wenv renv hwf hrf hgw hgr ro fuel w r hw hr bs hd⟩
 
 theorem c08_promotions (wp rp : Prim) (v : Val) :
     promotes wp.name rp.name = Spec.promotable wp rp ∧
@@ -116,3 +129,63 @@ example : (match readR 5 [] [] {} (.prim .int false none) (.prim .double false n
     | .ok (.float _, []) => true | _ => false) = true := by decide +kernel
 example : (match readR 5 [] [] {} (.prim .long false none) (.prim .int false none) [0x0a] with
     | .error .resolution => true | _ => false) = true := by decide +kernel
+
+/-! non-vacuity of `c08_resolve_eq_spec`: a record with a union-of-array field read through a reader
+    record with reordered fields, promotions, a reordered union, an alias and a defaulted field -/
+section
+open Binary Resolve ResolveProofs ResolveMatch ResolveFull
+theorem envWF_single (k : String) (d : Schema) (hk : AVRO_TYPES.contains k = false) (hn : d.isNamedDef = true)
+    (hd : d.defName? = some k) : EnvWF [(k, d)] := by
+  constructor
+  · intro n hn'
+    simp only [Env.get?]
+    have : (k == n) = false := by
+      cases hc : (k == n) with
+      | false => rfl
+      | true => simp only [beq_iff_eq] at hc; subst hc; rw [hk] at hn'; cases hn'
+    simp [this]
+  · intro n d' h
+    simp only [Env.get?] at h
+    split at h
+    · rename_i hkn
+      simp only [Option.some.injEq] at h; subst h
+      have : k = n := beq_iff_eq.mp hkn
+      subst this
+      exact ⟨hn, hd⟩
+    · simp at h
+
+def exW : Schema := .record "R" [.mk "a" (.prim .int false none) none [],
+    .mk "u" (.union [.prim .null false none, .array (.prim .string false none)]) none []] []
+def exR : Schema := .record "R" [.mk "u" (.union [.array (.prim .bytes false none), .prim .null false none]) none [],
+    .mk "a" (.prim .double false none) none [], .mk "c" (.prim .string false none) (some (.str "x")) ["old"]] []
+
+example : EnvWF [("R", exW)] ∧ EnvWF [("R", exR)] :=
+  ⟨envWF_single _ _ (by decide) rfl rfl, envWF_single _ _ (by decide) rfl rfl⟩
+
+theorem exW_good : Good [("R", exW)] false exW := by
+  simp [exW, Good, GoodFields, GoodList, isList]
+theorem exR_unamb : FieldsUnambiguous [.mk "u" (.union [.array (.prim .bytes false none), .prim .null false none]) none [],
+    .mk "a" (.prim .double false none) none [], .mk "c" (.prim .string false none) (some (.str "x")) ["old"]] := by
+  constructor
+  · intro a ha b hb; simp at ha hb; rcases ha with rfl | rfl | rfl <;> rcases hb with rfl | rfl | rfl <;> simp [Field.name]
+  · intro n a ha b hb; simp at ha hb; rcases ha with rfl | rfl | rfl <;> rcases hb with rfl | rfl | rfl <;> simp [Field.aliases]
+theorem exR_good : Good [("R", exR)] true exR := by
+  refine ⟨fun _ => ⟨by simp [exR, Env.get?], by simp [Field.name], exR_unamb⟩, ?_⟩
+  simp [Good, GoodFields, GoodList, isList]
+example : EnvGood [("R", exW)] false ∧ EnvGood [("R", exR)] true := by
+  constructor
+  · intro n d h
+    simp only [Env.get?] at h
+    split at h
+    · simp only [Option.some.injEq] at h; subst h; exact exW_good
+    · simp at h
+  · intro n d h
+    simp only [Env.get?] at h
+    split at h
+    · simp only [Option.some.injEq] at h; subst h; exact exR_good
+    · simp at h
+example : Good [("R", exW)] false (.ref "R") ∧ Good [("R", exR)] true (.ref "R") := ⟨⟨exW, rfl⟩, ⟨exR, rfl⟩⟩
+-- the record {a: 5, u: ["k"]} under the writer schema, read through the reader schema
+#guard (match readR 6 [("R", exW)] [("R", exR)] {} (.ref "R") (.ref "R") [0x0a, 0x02, 0x02, 0x02, 0x6b, 0x00] with
+    | .ok (.dict [(.str "a", .float _), (.str "u", .list [.bytes [0x6b]]), (.str "c", .str "x")], []) => true | _ => false)
+end
